@@ -816,6 +816,11 @@ func (c *EvalCtx) callExpr(e *Expr) TV {
 			return TV{V: tb.Le(c.oldA, vv.Arr), T: boolT}
 		}
 		return c.fail("fresh() of non-reference")
+	case "xzsentinel":
+		// one of package xz's own package-level error sentinels
+		v := c.eval(args[0])
+		t := c.mat(v, v.T)
+		return TV{V: tb.And(tb.Le(tb.IntC(1000), t), tb.Lt(t, tb.IntC(1500))), T: boolT}
 	case "modsentinel":
 		// the error value is one of the module's own package-level sentinels
 		v := c.eval(args[0])
